@@ -98,6 +98,12 @@ PROPS["C11"] = {
     "technique": "Coq theorems over partial-primitive models of the index/deref/nil-map sites + exhaustive single-node payload mutation under recover()",
 }
 
+PROPS["C15"] = {
+    "level_text": "Theorems (Properties/C15.v): the expression generated from the code lies in the modelled fragment and the v1 copy is identical; for EVERY non-empty token and user seed over [A-Za-z0-9_-.=], LF or CRLF line endings and any leading white space, the formatted credentials parse back to exactly the token and the second dashed block is exactly the trimmed seed (also through the user-only parser); decorating a token of any kind and parsing gives the token back; a token without line feed parses to itself; formatting is refused for non-user kinds and non-SU seeds; the user-only parser refuses operator and account seeds. The matcher (Base/Regex.v) is proved sound and complete for a declarative reading of the fragment. Tie: user tokens of varying length with fresh seeds through FormatUserConfig and all three parsers on six renderings (key pair compared by seed and public key), DecorateJWT of every kind, seeds of five roles, and adversarial texts through the REAL regexp versus the model matcher in Coq.",
+    "level_note": NOTE_COMMON + "Go's regexp engine is modelled by the backtracking matcher (leftmost-first); the expression itself is translated from regexp/syntax on every run. That the parsed key pair equals the original is nkeys.FromSeed on the same seed text (fact, checked by the harness).",
+    "assumptions": ["Go regexp = leftmost-first backtracking semantics on this fragment", "byte-level classes (the expression's classes are ASCII)"],
+}
+
 VAL_NOTE = NOTE_COMMON + ("Key-role tests, url.Parse, net.ParseCIDR, time.Parse, time.LoadLocation and the decoding of embedded activation tokens are Section variables "
     "(theorems hold for all of them); in the correspondence run they are fact tables computed by the harness. strconv.Atoi is modelled concretely. ")
 PROPS["C06"] = {
